@@ -242,6 +242,10 @@ def evaluate(ctx, r, rf, cfg, nodes, sessions, mode, meta):
     if mode == 'repeat':
         hp = [e['bytes'] for e in ev if e.get('e') == 'heap' and str(e.get('tag', '')).startswith('rep')]
         ctx.count('heap_series')
+        fds = [e.get('fds') for e in ev if e.get('e') == 'heap' and str(e.get('tag', '')).startswith('rep')]
+        if len(fds) >= 3 and None not in fds and -1 not in fds and fds[-1] > fds[0]:
+            ctx.violation('descriptor-growth', 'repeated-session', f'open file descriptors after each identical session: {fds}', r.scenario, r.flavour, meta)
+            return
         if len(hp) >= 6 and all(hp[i + 1] > hp[i] for i in range(2, 5)):
             ctx.violation('heap-growth', 'repeated-session', f'allocated bytes grow with every identical session: {hp}', r.scenario, r.flavour, meta)
             return
